@@ -987,7 +987,7 @@ def check_c08(res, tier, replay):
             closes = envs[1][3]
             exp = [c / closes[0] - 1.0 for c in closes]
             problem = None
-            if len(parts) != 3:
+            if len(parts) < 3:
                 problem = 'run failed: ' + g[:200]
             else:
                 cols = parts[1].split(';')
